@@ -165,4 +165,26 @@ def sortElements (els : List Elem) : List Elem :=
 /-- the element list the solver works with (and writes to the solution file) -/
 def elements (nn : Array Nat) (els : List Elem) : List Elem := sortElements (els.map (renumber nn))
 
+/-! ### `SortNodes(newnum)` (one copy per solver, identical): the nodes are moved to their new positions in place, by following
+    the cycles of `newnum`:
+    `for(i=0;i<N;i++) while(newnum[i]!=i){ j=newnum[i]; swap(newnum[i],newnum[j]); swap(meshnode[i],meshnode[j]); }`
+    Both arrays are swapped at the same two positions, so the model keeps one array of (new number, node) pairs. -/
+
+/-- the `while` loop at position `i`; `none` = the fuel is used up, where the C++ would not leave the loop (or, for a number outside
+    the array, would write outside it) -/
+def settle {β : Type} : Nat → Nat → Array (Nat × β) → Option (Array (Nat × β))
+  | 0, _, _ => none
+  | fuel + 1, i, a =>
+    match a[i]? with
+    | none => some a
+    | some (j, _) => if j = i then some a else if j < a.size then settle fuel i (a.swapIfInBounds i j) else none
+
+/-- the `for` loop over all positions -/
+def sortNodesLoop {β : Type} (a : Array (Nat × β)) : Option (Array (Nat × β)) :=
+  (List.range a.size).foldlM (fun a i => settle (a.size + 1) i a) a
+
+/-- `SortNodes`: the node list after the permutation, `none` if the loop does not end -/
+def sortNodes {β : Type} (newnum : Array Nat) (nodes : Array β) : Option (Array β) :=
+  (sortNodesLoop (newnum.zip nodes)).map (fun a => a.map (·.2))
+
 end XfemmVerif.Cuthill
